@@ -215,6 +215,11 @@ def fuzz (_c impl : List String) : Option Verdict :=
   pure { model := (if impl == ["ok"] then "ok" else "rej"), oracle := impl != ["panic"], nontrivial := false,
          note := if impl == ["panic"] then "Parse panicked on a malformed document" else "" }
 
+/-- `unk level | ok/rej/panic`: an accepted document with one unknown key added must be rejected -/
+def unk (_c impl : List String) : Option Verdict :=
+  pure { model := "rej", oracle := impl == ["rej"], nontrivial := true,
+         note := if impl == ["rej"] then "" else "a document with a key the reference does not know was accepted (or Parse panicked): \"no unknown keys\" is a documented constraint" }
+
 def pSysIP : P SysIP := do
   let p ← P.prefix_
   let dep ← P.bool; let mng ← P.bool; let stab ← P.bool; let tmp ← P.bool; let tent ← P.bool; let fv ← P.bool
